@@ -1,26 +1,62 @@
 package tmmemstore
 
 import (
-	"errors"
-
 	"github.com/gordian-engine/gordian/gcrypto"
 	"github.com/gordian-engine/gordian/internal/verifrt"
 	"github.com/gordian-engine/gordian/internal/verifrt/vkit"
 	"github.com/gordian-engine/gordian/tm/tmstore"
 )
 
-// vhHS: key hash "pk"+ids (vkit); power hash "vp"+8 bytes per power: both injective on
-// the values the harness uses, so "the keys/powers that hash to it" is a single value.
+// vhHS: key hash "pk"+ids (vkit); power hash "vp"+low byte of each power: both injective
+// on the values the harness uses (powers < 256), so "the keys/powers that hash to it" is a
+// single value.
 type vhHS struct{ vkit.HashScheme }
 
 func (vhHS) VotePowers(pows []uint64) ([]byte, error) {
 	out := []byte("vp")
 	for _, p := range pows {
-		for s := 56; s >= 0; s -= 8 {
-			out = append(out, byte(p>>uint(s)))
-		}
+		out = append(out, byte(p))
 	}
 	return out, nil
+}
+
+// vhPower is an arbitrary vote power below 256.
+func vhPower() uint64 { return uint64(verifrt.U8("power")) }
+
+// vhNoKeys / vhNoPows find an error of the wanted kind in err, looking through
+// Unwrap() error and Unwrap() []error (errors.Join) like errors.As does.
+func vhNoKeys(err error) (tmstore.NoPubKeyHashError, bool) {
+	for _, e := range vhFlatten(err, 0) {
+		if ne, ok := e.(tmstore.NoPubKeyHashError); ok {
+			return ne, true
+		}
+	}
+	return tmstore.NoPubKeyHashError{}, false
+}
+
+func vhNoPows(err error) (tmstore.NoVotePowerHashError, bool) {
+	for _, e := range vhFlatten(err, 0) {
+		if ne, ok := e.(tmstore.NoVotePowerHashError); ok {
+			return ne, true
+		}
+	}
+	return tmstore.NoVotePowerHashError{}, false
+}
+
+func vhFlatten(err error, depth int) []error {
+	if err == nil || depth > 4 {
+		return nil
+	}
+	out := []error{err}
+	switch u := err.(type) {
+	case interface{ Unwrap() error }:
+		out = append(out, vhFlatten(u.Unwrap(), depth+1)...)
+	case interface{ Unwrap() []error }:
+		for _, e := range u.Unwrap() {
+			out = append(out, vhFlatten(e, depth+1)...)
+		}
+	}
+	return out
 }
 
 type vhVKeys struct {
@@ -115,7 +151,7 @@ func vhValSavePows(s *ValidatorStore, m *vhValModel) {
 	n := 1 + verifrt.Choose("n-pows", 2)
 	pows := make([]uint64, n)
 	for i := range pows {
-		pows[i] = verifrt.U64("power")
+		pows[i] = vhPower()
 	}
 	wb, _ := vhHS{}.VotePowers(pows)
 	want := string(wb)
@@ -189,20 +225,18 @@ func vhValCheckLoadValidators(s *ValidatorStore, m *vhValModel, kq, pq string) {
 	got, err := s.LoadValidators(vhCtx, kq, pq)
 	verifrt.Observe("val-load-validators", uint64(len(kq)), uint64(len(pq)), vhErrCode(err), uint64(len(got)))
 	ke, pe := m.findKeys(kq), m.findPows(pq)
-	var nk tmstore.NoPubKeyHashError
-	var np tmstore.NoVotePowerHashError
 	if ke == nil || pe == nil {
 		verifrt.Reach("val:load-validators-unknown-hash")
 		verifrt.Assert(err != nil, "V5:load-validators-with-unknown-hash-fails")
 		if ke == nil {
-			ok := errors.As(err, &nk)
+			nk, ok := vhNoKeys(err)
 			verifrt.Assert(ok, "V5:missing-keys-reported-as-NoPubKeyHashError")
 			if ok {
 				verifrt.Assert(nk.Want == kq, "V5:NoPubKeyHashError-names-the-request")
 			}
 		}
 		if pe == nil {
-			ok := errors.As(err, &np)
+			np, ok := vhNoPows(err)
 			verifrt.Assert(ok, "V5:missing-powers-reported-as-NoVotePowerHashError")
 			if ok {
 				verifrt.Assert(np.Want == pq, "V5:NoVotePowerHashError-names-the-request")
@@ -243,12 +277,12 @@ func vhValQuery(m *vhValModel, name string) string {
 	return m.hashes[i]
 }
 
-// VH_C16_Validator: up to two symbolic saves (keys or powers), then every ValidatorStore
+// VH_C16_Validator: up to two (thorough: three) symbolic saves (keys or powers), then every ValidatorStore
 // method; after every save the hash is loaded and compared with the model.
 func VH_C16_Validator() {
 	s := NewValidatorStore(vhHS{})
 	m := &vhValModel{}
-	n := verifrt.Choose("prefix-ops", 3)
+	n := verifrt.Choose("prefix-ops", vhMaxPrefix()+1)
 	for i := 0; i < n; i++ {
 		if verifrt.Choose("op", 2) == 0 {
 			vhValSaveKeys(s, m)
@@ -300,7 +334,7 @@ func VH_C16_Validator_Aliasing() {
 		verifrt.Observe("alias-keys-loaded", vhErrCode(err), uint64(len(got)))
 		verifrt.Assert(err == nil && vhKeysEq(got, orig), "W2:keys-for-hash-unchanged-after-caller-edits-loaded-slice")
 	case 2:
-		pows := []uint64{verifrt.U64("power"), verifrt.U64("power")}
+		pows := []uint64{vhPower(), vhPower()}
 		orig := append([]uint64(nil), pows...)
 		hash, err := s.SaveVotePowers(vhCtx, pows)
 		verifrt.Assert(err == nil, "W0:save-accepted")
@@ -310,7 +344,7 @@ func VH_C16_Validator_Aliasing() {
 		verifrt.Observe("alias-pows-saved", vhErrCode(err), uint64(len(got)))
 		verifrt.Assert(err == nil && vhPowsEq(got, orig), "W3:powers-for-hash-unchanged-after-caller-reuses-saved-slice")
 	case 3:
-		pows := []uint64{verifrt.U64("power"), verifrt.U64("power")}
+		pows := []uint64{vhPower(), vhPower()}
 		orig := append([]uint64(nil), pows...)
 		hash, err := s.SaveVotePowers(vhCtx, pows)
 		verifrt.Assert(err == nil, "W0:save-accepted")
